@@ -506,6 +506,12 @@ func (p *Path) trailString() string {
 
 func (p *Path) addViolation(kind, label, detail string, m Model) {
 	vals, kinds, order := p.snapshotInputs(m)
+	if on, _ := p.extra["interfered"].(bool); on && (kind == "assert" || kind == "fail" || kind == "panic") {
+		// the path contains an operation of another goroutine placed right after a sync.Pool.Put: the
+		// counterexample is a schedule, which a native sequential replay cannot reproduce
+		kind = "interleaving"
+		detail += " [another goroutine's log call scheduled right after a sync.Pool.Put]"
+	}
 	if kind == "panic" && p.panicTrace != "" {
 		detail += " | at " + p.panicTrace
 	}
